@@ -313,8 +313,6 @@ func wasiCall(mod api.Module, params []uint64, n int) bool {
 //@   sweep
 //@   alloc-bound 64*memBytes(mod.Memory()) + 1<<20
 
-
-
 // ---- C16: the WASI glue of the positioning calls passes the guest's arguments to the file unchanged
 // and reports the file's answer (ghost registers record the last File.Seek and the last 64-bit store).
 func gi(n string) int { return verif_ghost_int(n) }
@@ -344,8 +342,8 @@ func gi(n string) int { return verif_ghost_int(n) }
 // contributes at most its 24-byte header.
 //@ func maxDirents(dirents []experimentalsys.Dirent, bufLen uint32) (bufToWrite uint32, direntCount int, truncatedLen uint32)
 //@   ensures[within-the-buffer] bufToWrite <= bufLen && truncatedLen <= bufToWrite && truncatedLen <= 24
+//@   requires[names-are-encodable] forall k int :: 0 <= k && k < len(dirents) ==> len(dirents[k].Name) < 1<<31
 //@   ensures[entries-counted] 0 <= direntCount && direntCount <= len(dirents) && (truncatedLen > 0 ==> direntCount >= 1)
-//@   may-panic true
 //@   records mdToWrite = int(bufToWrite)
 //@   records mdTrunc = int(truncatedLen)
 //@   modifies ghost("mdToWrite"), ghost("mdTrunc")
@@ -359,7 +357,9 @@ func gi(n string) int { return verif_ghost_int(n) }
 
 //@ case bufused fdReaddirFn(ctx context.Context, mod api.Module, params []uint64) experimentalsys.Errno
 //@   requires wasiCall(mod, params, 5)
-//@   ensures[more-entries-are-signalled-by-a-full-buffer] r0 == 0 ==> gi("w32Off") == int(uint32(params[4])) && (gi("mdTrunc") > 0 ==> gi("w32Val") == int(uint32(params[2]))) && (gi("mdTrunc") == 0 ==> gi("w32Val") == gi("mdToWrite"))
+//@   ensures[result-written-where-asked] r0 == 0 ==> gi("w32Off") == int(uint32(old(params[4])))
+//@   ensures[more-entries-are-signalled-by-a-full-buffer] r0 == 0 && gi("mdTrunc") > 0 ==> gi("w32Val") == int(uint32(old(params[2])))
+//@   ensures[otherwise-the-bytes-of-the-whole-entries] r0 == 0 && gi("mdTrunc") == 0 ==> gi("w32Val") == gi("mdToWrite")
 //@   nosafety
 
 // Positional I/O: each chunk of an fd_pread / fd_pwrite vector is transferred at the cursor, which then
